@@ -43,6 +43,19 @@ let () =
           let k = bytes_of_hex hk in
           hk ^ "=" ^ (match plset_get n l k with None -> "-" | Some v -> hex_of_bytes v)) keys in
       Printf.printf "%s\t%d %s\n" id (List.length (List.filter (fun b -> b) reply)) (String.concat "," vals)
+    | id :: "L" :: evs :: _ ->
+      let keys = ["t:a"; "t:b"; "t:c"; "t:k1"; "t:k2"; "t:k3"; "t2:x"; "t2:y"; "tt:0"; "tt:1"; "q:zz"; "q:"] in
+      let bytes_of_string s = List.init (String.length s) (fun i -> n_of_int (Char.code s.[i])) in
+      let st = ref ns_init in
+      let outs = List.map (fun e ->
+          let ev = if e.[0] = 'I' then Scanf.sscanf e "I%d/%d" (fun p n -> NsInit (n_of_int p, n_of_int n))
+                   else Scanf.sscanf e "D%d" (fun p -> NsStop (n_of_int p)) in
+          st := ns_step !st ev;
+          String.concat "" (List.map (fun k ->
+              match ns_route !st (bytes_of_string k) with
+              | Served p -> dec_of_n p
+              | Rejected -> "-") keys)) (split_on ',' evs) in
+      Printf.printf "%s\t%s\n" id (String.concat " " outs)
     | id :: "R" :: pnum :: missing :: key :: _ ->
       let k = bytes_of_hex key in
       let p = part_of (route_key k) (n_of_dec pnum) in
